@@ -751,9 +751,9 @@ static void wlInvokeDeep() {
 
 } // namespace
 
-HX_WORKLOAD("C02", "barrier", wlBarrier, SF_ALL, 4000000, 4000000, 1);
+HX_WORKLOAD("C02", "barrier", wlBarrier, SF_ALL | SF_TSO, 4000000, 4000000, 1);
 HX_WORKLOAD("C04", "cancel", wlCancel, SF_ALL, 4000000, 4000000, 1);
-HX_WORKLOAD("C05", "throw", wlThrow, SF_ALL, 4000000, 4000000, 1);
+HX_WORKLOAD("C05", "throw", wlThrow, SF_ALL | SF_TSO, 4000000, 4000000, 1);
 HX_WORKLOAD("C47", "taskset-fq", wlFQ, SF_ALL, 4000000, 4000000, 1);
-HX_WORKLOAD("C16", "invoke", wlInvoke, SF_ALL, 4000000, 4000000, 2);
-HX_WORKLOAD("C16", "invoke-deep", wlInvokeDeep, SF_ALL, 4000000, 4000000, 1);
+HX_WORKLOAD("C16", "invoke", wlInvoke, SF_ALL | SF_TSO, 4000000, 4000000, 2);
+HX_WORKLOAD("C16", "invoke-deep", wlInvokeDeep, SF_ALL | SF_TSO, 4000000, 4000000, 1);
